@@ -64,21 +64,71 @@ def indep_doy(dates):
     return np.array([d.timetuple().tm_yday for d in dates], dtype=int)
 
 
-def check_calendar(dates, problems, what="calendar"):
-    """the library's day_of_year / month / year must agree with the calendar (the model receives these integer codes)"""
+class PlainDate:
+    """a date type WITHOUT .timetuple (like cftime's): .year/.month/.day, constructor (y, m, d), subtraction -> timedelta.
+    ibicus.utils.day_of_year supports such types through `type(x)(year, 1, 1)` and `(x - first).days + 1`."""
+    __slots__ = ("_d",)
+
+    def __init__(self, y, m, d):
+        self._d = datetime.date(int(y), int(m), int(d))
+
+    year = property(lambda s: s._d.year)
+    month = property(lambda s: s._d.month)
+    day = property(lambda s: s._d.day)
+
+    def __sub__(self, other):
+        return self._d - other._d
+
+    def __repr__(self):
+        return f"PlainDate({self._d})"
+
+
+DATE_KINDS = ("date", "date", "datetime", "M8D", "M8h", "M8s", "M8ns", "plain")
+
+
+def present(dates, kind):
+    """the same calendar days in another of the time-array encodings the library accepts (the harness keeps the python
+    date objects for its own, independent calendar arithmetic)"""
+    if kind == "date":
+        return dates
+    if kind == "datetime":
+        return np.array([datetime.datetime(d.year, d.month, d.day, 12 if i % 2 else 0, 30 if i % 3 else 0) for i, d in enumerate(dates)], dtype=object)
+    if kind == "plain":
+        return np.array([PlainDate(d.year, d.month, d.day) for d in dates], dtype=object)
+    unit = kind[2:]
+    a = np.array([np.datetime64(d.isoformat()) for d in dates], dtype="datetime64[D]").astype(f"datetime64[{unit}]")
+    if unit != "D":
+        a = a + np.timedelta64(13, "h").astype(f"timedelta64[{unit}]")  # 13:00, so that truncation to the day matters
+    return a
+
+
+def pick_kind(rng):
+    return rng.choice(DATE_KINDS)
+
+
+def check_calendar(dates, problems, what="calendar", presented=None):
+    """the library's day_of_year / month / year must agree with the calendar (the model receives these integer codes);
+    `presented` = the same days in the encoding actually handed to the library"""
     from ibicus.utils import day_of_year, month, year
 
     if len(dates) == 0:
         return
+    shown = dates if presented is None else presented
     with warnings.catch_warnings():
         warnings.simplefilter("ignore")
-        got = (np.asarray(day_of_year(dates)), np.asarray(month(dates)), np.asarray(year(dates)))
+        try:
+            got = (np.asarray(day_of_year(shown)), np.asarray(month(shown)), np.asarray(year(shown)))
+        except Exception as ex:  # noqa: BLE001
+            problems.append((f"ibicus.utils day_of_year/month/year raise {type(ex).__name__} on a supported time encoding ({type(shown[0]).__name__}, dtype {getattr(shown, 'dtype', None)}): {str(ex)[:100]}",
+                             {"what": what + "/raises", "first": str(dates[0]), "n": int(len(dates)), "encoding": str(getattr(shown, 'dtype', type(shown[0]).__name__))}))
+            return
     want = (indep_doy(dates), np.array([d.month for d in dates]), np.array([d.year for d in dates]))
     for name, g, w in zip(("day_of_year", "month", "year"), got, want):
         if g.shape != w.shape or (g != w).any():
             k = int(np.where(g != w)[0][0]) if g.shape == w.shape else 0
             problems.append((f"ibicus.utils.{name} disagrees with the calendar: {dates[k]} -> {g[k] if g.shape == w.shape else g.shape} (calendar: {w[k]})",
-                             {"what": what + "/" + name, "date": str(dates[k]), "first": str(dates[0]), "n": int(len(dates))}))
+                             {"what": what + "/" + name, "date": str(dates[k]), "first": str(dates[0]), "n": int(len(dates)),
+                              "encoding": str(getattr(shown, "dtype", "")) + "/" + type(shown[0]).__name__}))
             return
 
 
@@ -174,6 +224,7 @@ def check_assignment(kind, deb, exp, o, h, f, dO, dH, dF, case, problems):
         a, b = exp[3:].split(","), got[3:].split(",")
         bad = [i for i, (x, y) in enumerate(zip(a, b)) if x != y]
         dates = dO if kind == "dc" else dF
+        dates = [getattr(d, "_d", d) for d in dates]
         problems.append((f"{kind}: {len(bad)} time steps hold a value that was not computed by the window they are assigned to "
                          f"(written by another window, or more than once); first {dates[bad[0]] if bad else '?'}",
                          {"what": "apply_location-assignment/" + kind, **case}))
@@ -195,7 +246,14 @@ def skeleton_cases(rng, n, tier, res, problems):
         o = nprs.randint(-9, 10, dO.size).astype(float)
         h = nprs.randint(-9, 10, dH.size).astype(float)
         f = nprs.randint(-9, 10, dF.size).astype(float)
-        case = {"kind": "skeleton-" + kind, "L": L, "S": S, "startF": str(dF[0]), "nF": int(dF.size), "nO": int(dO.size), "nH": int(dH.size)}
+        enc = pick_kind(rng)
+        case = {"kind": "skeleton-" + kind, "L": L, "S": S, "startF": str(dF[0]), "nF": int(dF.size), "nO": int(dO.size), "nH": int(dH.size), "time_encoding": enc}
+        rawO, rawH, rawF = dO, dH, dF
+        if kind not in ("cdft_years", "qdm_years"):
+            # the same days in one of the time encodings the library accepts; the calendar is checked independently
+            dO, dH, dF = present(rawO, enc), present(rawH, enc), present(rawF, enc)
+            for raw, shown in ((rawO, dO), (rawH, dH), (rawF, dF)):
+                check_calendar(raw, problems, what="skeleton/calendar", presented=shown)
         with warnings.catch_warnings():
             warnings.simplefilter("ignore")
             doyO, doyH, doyF = day_of_year(dO), day_of_year(dH), day_of_year(dF)
@@ -228,6 +286,9 @@ def skeleton_cases(rng, n, tier, res, problems):
             if YS > YL:
                 YL, YS = YS, YL
             case.update({"YL": YL, "YS": YS, "nF": int(dF.size), "startF": str(dF[0])})
+            rawF = dF
+            dO, dH, dF = present(rawO, enc), present(rawH, enc), present(rawF, enc)
+            check_calendar(rawF, problems, what="skeleton/calendar", presented=dF)
             cls = ProbeCDFt if kind == "cdft_years" else ProbeQDM
             kw = dict(running_window_mode=False, running_window_mode_over_years_of_cm_future=True,
                       running_window_over_years_of_cm_future_length=YL, running_window_over_years_of_cm_future_step_length=YS)
@@ -295,7 +356,9 @@ def debiasers_finite(rng, n, res, problems):
             else:
                 dO, dH, dF = dFull1, dFull2, dX
             o, h, f = tas_like(nprs, dO, 283, 3), tas_like(nprs, dH, 285, 4), tas_like(nprs, dF, 287, 4)
-            case = {"what": "debiaser/" + name, "L": L, "S": S, "start": str(dX[0]), "n": int(nF), "seed": C.seed()}
+            enc = pick_kind(rng)
+            case = {"what": "debiaser/" + name, "L": L, "S": S, "start": str(dX[0]), "n": int(nF), "seed": C.seed(), "time_encoding": enc}
+            dO, dH, dF = present(dO, enc), present(dH, enc), present(dF, enc)
             with warnings.catch_warnings():
                 warnings.simplefilter("ignore")
                 try:
